@@ -8,11 +8,18 @@ CONSTANT SampleK
 P1(tag) == [m |-> "PublishAtLeastOnce", tag |-> tag]
 P2(tag) == [m |-> "PublishExactlyOnce", tag |-> tag]
 CloseOp == [m |-> "Close", tag |-> 0]
+PingOp == [m |-> "Ping", tag |-> 0]
+SubOp == [m |-> "Subscribe", tag |-> 0]
+P0(tag) == [m |-> "Publish", tag |-> tag]
 
 ScriptOne == ("w1" :> <<P1(1)>>)
 ScriptQ2  == ("w1" :> <<P2(1)>>)
 ScriptTwo == ("w1" :> <<P1(1), P2(2)>>) @@ ("w2" :> <<P1(3)>>)
 ScriptClose == ("w1" :> <<P1(1)>>) @@ ("c1" :> <<CloseOp>>)
+ScriptReq == ("w1" :> <<P0(1), PingOp>>) @@ ("w2" :> <<SubOp>>)
+ScriptPings == ("w1" :> <<PingOp>>) @@ ("w2" :> <<PingOp, P0(2)>>)
+ScriptReqClose == ("w1" :> <<PingOp>>) @@ ("w2" :> <<SubOp>>) @@ ("c1" :> <<CloseOp>>)
+ScriptMixReq == ("w1" :> <<P1(1)>>) @@ ("w2" :> <<P0(2), SubOp>>)
 ScriptMix == ("w1" :> <<P1(1), P2(2)>>) @@ ("w2" :> <<P2(3)>>) @@ ("c1" :> <<CloseOp>>)
 
 ASSUME PrintT(<<"SCRIPT", ToJson(Script)>>)
